@@ -440,7 +440,10 @@ INSERT INTO z SELECT i, i%%13, CASE i%%3 WHEN 0 THEN 'k'||(i%%5) WHEN 1 THEN 'K'
 }
 
 var defaultTypes = []string{"", "INTEGER", "INT", "REAL", "NUMERIC", "TEXT", "BLOB", "VARCHAR(10)", "FLOAT", "BOOLEAN", "DATETIME"}
-var defaultLiterals = []string{"7", "'7'", "-3", "'-3'", "2.5", "'2.5'", "'abc'", "x'00ff'", "NULL", "1e3", "'1e3'", "' 12 '", "9223372036854775807", "'9223372036854775808'", "TRUE", "false", "''", "0", "'0x10'", "+5", "'2006-01-02 15:04:05'", "abc", "'TRUE'"}
+var defaultLiterals = []string{"7", "'7'", "-3", "'-3'", "2.5", "'2.5'", "'abc'", "x'00ff'", "NULL", "1e3", "'1e3'", "' 12 '", "9223372036854775807", "'9223372036854775808'", "TRUE", "false", "''", "0", "'0x10'", "+5", "'2006-01-02 15:04:05'", "abc", "'TRUE'",
+	// numbers at the precision limits of a double and of an int64, bare and as text, and numeric text in its less usual spellings
+	"'9007199254740993'", "9007199254740993", "'-4503599627370497'", "'4503599627370496'", "'9223372036854775807'", "'-9223372036854775808'", "-9223372036854775808", "'-9223372036854775809'",
+	"'9007199254740993.0'", "9007199254740993.0", "'1e18'", "1e18", "'1e19'", "'0012'", "'+12'", "'1.0'", "'1.50'", "'.5'", "'5.'", "'1E-2'", "'Inf'", "'nan'", "'1_000'", "'12abc'", "' 1.5e1 '", "-0.0", "'-0.0'", "'-0'", "x''", "x'31'"}
 
 // c01Defaults: the DEFAULT of a column added by ALTER TABLE, for every declared type x literal form, read
 // from a row stored before the ALTER, from a row stored after it, and from a row that stores NULL: the value SQLite reports (or the table is rejected). One table per
